@@ -1,22 +1,22 @@
 #!/bin/bash
-# usage: verify_seed.sh <Cxx> <A|B>   -- independently confirm a sub-agent's seeded change in its scratch worktree:
+# usage: verify_seed.sh <Cxx> <A|B> [worktree] [seed-dir] [name-in-/verif/seeded]   -- independently confirm a sub-agent's seeded change in its scratch worktree:
 # demo passes on the clean tree; with the patch: builds, `make check` 11/11, demo fails.  Copies it to /verif/seeded/.
-id=$1; v=$2; wt=/tmp/wt_$id; sd=/tmp/seed_$id/$v
+id=$1; v=$2; wt=${3:-/tmp/wt_$id}; sd=${4:-/tmp/seed_$id}/$v; name=${5:-$v}
 cd $wt || exit 3
 git checkout -- . && make -j16 >/dev/null 2>&1 || { echo "clean build failed"; exit 3; }
-timeout 300 sh $sd/run_demo.sh >/tmp/vs_clean.log 2>&1; clean_rc=$?
+timeout 300 sh $sd/run_demo.sh >/tmp/vs_clean_$id.log 2>&1; clean_rc=$?
 git apply $sd/patch.diff || { echo "patch does not apply"; exit 3; }
 make -j16 >/dev/null 2>&1; build_rc=$?
 mc=$(make check 2>&1 | grep -E "^# (PASS|FAIL|ERROR):" | tr '\n' ' ')
-timeout 300 sh $sd/run_demo.sh >/tmp/vs_mut.log 2>&1; mut_rc=$?
+timeout 300 sh $sd/run_demo.sh >/tmp/vs_mut_$id.log 2>&1; mut_rc=$?
 git checkout -- . && make -j16 >/dev/null 2>&1
-echo "$id-$v: clean_demo_rc=$clean_rc build_rc=$build_rc make_check=[$mc] mutant_demo_rc=$mut_rc"
+echo "$id-$name: clean_demo_rc=$clean_rc build_rc=$build_rc make_check=[$mc] mutant_demo_rc=$mut_rc"
 if [ $clean_rc -eq 0 ] && [ $build_rc -eq 0 ] && [ $mut_rc -ne 0 ] && echo "$mc" | grep -q "PASS:  11 # FAIL:  0 # ERROR: 0"; then
-  d=/verif/seeded/$id-$v; mkdir -p $d
+  d=/verif/seeded/$id-$name; mkdir -p $d
   cp $sd/patch.diff $sd/demo.c $sd/run_demo.sh $sd/notes.md $d/ 2>/dev/null
-  tail -5 /tmp/vs_mut.log > $d/demo_output_with_change.txt
+  tail -5 /tmp/vs_mut_$id.log > $d/demo_output_with_change.txt
   cat > $d/meta.json <<EOM
-{"property": "$id", "variant": "$v", "source": "independent sub-agent given only the property text and a scratch worktree",
+{"property": "$id", "variant": "$name", "source": "independent sub-agent given only the property text and a scratch worktree",
  "confirmed": {"clean_demo_exit": $clean_rc, "patched_build_exit": $build_rc, "patched_make_check": "$mc", "patched_demo_exit": $mut_rc},
  "ran": "tools/verify_seed.sh $id $v (in $wt: clean build + demo; git apply; make; make check; demo; revert)"}
 EOM
